@@ -41,13 +41,17 @@ func pickTuple(small bool) apiTuple {
 		t.sub = apiSub{sid: verifIntRange(0, dbObjs-1)}
 	} else {
 		t.sub = apiSub{isSet: true, sns: verifIntRange(0, len(dbNS)-1), sobj: verifIntRange(0, dbObjs-1), srel: verifIntRange(0, len(dbRels)-1)}
+		if verifParamOr("emptyRel", 0) == 1 && verifChoice(2) == 1 {
+			// the subject set "ns:obj#" (empty relation)
+			t.sub.srel = dbRelEmpty
+		}
 	}
 	return t
 }
 
 func (s apiSub) value() relationtuple.Subject {
 	if s.isSet {
-		return &relationtuple.SubjectSet{Namespace: dbNSName(s.sns), Object: dbObj(s.sobj), Relation: dbRelName(s.srel)}
+		return &relationtuple.SubjectSet{Namespace: dbNSName(s.sns), Object: dbObj(s.sobj), Relation: dbSetRelName(s.srel)}
 	}
 	return &relationtuple.SubjectID{ID: dbObj(s.sid)}
 }
@@ -183,7 +187,7 @@ func HarnessC04() {
 	dbQueries = map[*pop.Query]*dbQuery{}
 	pre := dbCopyRows(db.rows)
 	p := newModelPersister(0)
-	ctx := context.Background()
+	ctx := dbCtx()
 
 	var ins, del []apiTuple
 	var delQ *apiQuery
@@ -336,7 +340,7 @@ func HarnessC07() {
 	dbQueries = map[*pop.Query]*dbQuery{}
 	pre := dbCopyRows(db.rows)
 	p := newModelPersister(0)
-	ctx := context.Background()
+	ctx := dbCtx()
 	q := pickQuery(false)
 	size := verifIntRange(0, K+1)
 	eff := verifIte(verifEq(size, 0), 100, size)
@@ -473,7 +477,7 @@ func HarnessC05() {
 	dbQueries = map[*pop.Query]*dbQuery{}
 	pre := dbCopyRows(db.rows)
 	p := newModelPersister(0)
-	ctx := context.Background()
+	ctx := dbCtx()
 	nIns, nDel := verifChoice(3), verifChoice(3)
 	var ins, del []*relationtuple.RelationTuple
 	for i := 0; i < nIns; i++ {
@@ -523,7 +527,7 @@ func HarnessC05Chunks() {
 	dbInserted = nil
 	dbQueries = map[*pop.Query]*dbQuery{}
 	p := newModelPersister(0)
-	ctx := context.Background()
+	ctx := dbCtx()
 	mk := func(i int) *relationtuple.RelationTuple {
 		var o uuid.UUID
 		o[0] = 0x0B
@@ -599,7 +603,7 @@ func HarnessC06Traverse() {
 	dbQueries = map[*pop.Query]*dbQuery{}
 	p := newModelPersister(0)
 	tr := NewTraverser(p)
-	ctx := context.Background()
+	ctx := dbCtx()
 	dbStrict = verifChoice(2) == 1
 	start := pickTuple(false)
 	mine := func(s int) bool { return verifAnd(db.rows[s].present, verifEq(db.rows[s].nid, 0)) }
@@ -680,7 +684,7 @@ func HarnessC03SQLFaults() {
 	dbQueries = map[*pop.Query]*dbQuery{}
 	p := newModelPersister(0)
 	tr := NewTraverser(p)
-	ctx := context.Background()
+	ctx := dbCtx()
 	dbStrict = verifChoice(2) == 1
 	db.failAt = 1 + verifChoice(3)
 	var err error
@@ -717,7 +721,7 @@ func HarnessC13PageSize() {
 	dbInserted = nil
 	dbQueries = map[*pop.Query]*dbQuery{}
 	p := newModelPersister(0)
-	ctx := context.Background()
+	ctx := dbCtx()
 	size := verifInt()
 	verifAssume(verifNot(verifLess(size, 0)))
 	q := pickQuery(true)
